@@ -57,6 +57,7 @@ TxIns(t) == CASE t = "T1" -> << <<"F1", 0>> >>
               [] t = "T5" -> << <<"X", 0>> >>                  \* never created
               [] t = "T6" -> << <<"F2", 0>> >>
               [] t = "T7" -> << <<"T1", 1>>, <<"F2", 0>> >>    \* conflicts with T6
+              [] t = "T9" -> << <<"F1", 0>> >>                 \* F1 again, with another input sequence number
               [] t = "R1" -> << <<"G1", 0>> >>                 \* producer registrations:
               [] t = "R2" -> << <<"G2", 0>> >>                 \* inputs never collide, the
               [] t = "R3" -> << <<"G3", 0>> >>                 \* unique resources do (Res)
@@ -71,6 +72,7 @@ TxOuts(t) == CASE t = "T1" -> << [addr |-> "A", zero |-> FALSE], [addr |-> "B", 
                [] t = "T5" -> << [addr |-> "A", zero |-> FALSE] >>
                [] t = "T6" -> << [addr |-> "A", zero |-> FALSE], [addr |-> "A", zero |-> TRUE] >>
                [] t = "T7" -> << [addr |-> "A", zero |-> FALSE] >>
+               [] t = "T9" -> << [addr |-> "A", zero |-> FALSE] >>
                [] t \in {"R1", "R2", "R3", "R4"} ->      \* deposit + change
                     << [addr |-> "D", zero |-> FALSE], [addr |-> "K", zero |-> FALSE] >>
                [] OTHER -> <<>>
